@@ -32,7 +32,13 @@ def real_trace(reads):
                 return chunks.pop(0)
         c.reader = R()
         seen = []
-        c.decoder.decode_usb = lambda pkt: seen.append(bytes(pkt)) or None
+
+        def decode_usb(pkt):
+            seen.append(bytes(pkt))
+            if len(pkt) > 10 and pkt[10] % 4 == 0:
+                raise ValueError("payload rejected by the PGN decoder")     # a well-framed packet the decoder core rejects: consumed like any other
+            return None
+        c.decoder.decode_usb = decode_usb
         out = []
         for _ in range(len(reads)):
             seen.clear()
@@ -146,7 +152,13 @@ def _deliveries(reads):
         c.reader = R()
         got = []
         mx = 0
-        c.decoder._decode = lambda pgn, pr, s, dd, ts, data, raw, ac=False: got.append(bytes(raw)) or None
+
+        def core(pgn, pr, s, dd, ts, data, raw, ac=False):
+            got.append(bytes(raw))
+            if raw[10] % 4 == 0:
+                raise ValueError("payload rejected by the PGN decoder")
+            return None
+        c.decoder._decode = core
         for _ in range(len(reads)):
             await c._receive_impl()
             mx = max(mx, len(c._buffer))
